@@ -18,6 +18,7 @@ type likeCase struct {
 	Obj    []int `json:"obj"`    // per method: -1 absent, else arity (declared in the object's class)
 	Target []int `json:"target"` // per method: -1 absent, else arity
 	TIface bool  `json:"target_is_interface"`
+	Anon   bool  `json:"obj_anonymous,omitempty"` // the object's class is an anonymous class extending Base
 }
 
 func likeWant(c likeCase) bool {
@@ -74,9 +75,12 @@ func likeScript(base, obj []int, targets [][]int, pfx string) string {
 		fmt.Fprintf(&sb, "interface %sTI%d {%s }\n", pfx, i, ifaceBody(t))
 	}
 	fmt.Fprintf(&sb, "$o = new %sObj();\n", pfx)
+	// the same method table on an anonymous class (not registered under a name)
+	fmt.Fprintf(&sb, "$a = new class extends %sBase {%s };\n", pfx, classBody(obj, "obj"))
 	for i := range targets {
 		for _, k := range []string{"TC", "TI"} {
 			fmt.Fprintf(&sb, "echo \"@@%s%d@@\"; try { echo ($o like %s%s%d) ? \"y\" : \"n\"; } catch (Throwable $e) { echo \"E|\", get_class($e), \"|\", $e->getMessage(); }\n", k, i, pfx, k, i)
+			fmt.Fprintf(&sb, "echo \"@@A%s%d@@\"; try { echo ($a like %s%s%d) ? \"y\" : \"n\"; } catch (Throwable $e) { echo \"E|\", get_class($e), \"|\", $e->getMessage(); }\n", k, i, pfx, k, i)
 		}
 	}
 	sb.WriteString("echo \"@@END@@\";\n")
@@ -104,6 +108,9 @@ func evalLike(st *stats, c likeCase) (bool, string, string) {
 	tag := "TC0"
 	if c.TIface {
 		tag = "TI0"
+	}
+	if c.Anon {
+		tag = "A" + tag
 	}
 	v, ok := out[tag]
 	got := norm(v, ok)
@@ -164,7 +171,15 @@ func reduceLike(st *stats, c likeCase) likeCase {
 	w0, g0, _ := evalLike(st, c)
 	target := fmt.Sprint(w0, g0)
 	cp := func(c likeCase) likeCase {
-		return likeCase{append([]int{}, c.Base...), append([]int{}, c.Obj...), append([]int{}, c.Target...), c.TIface}
+		return likeCase{append([]int{}, c.Base...), append([]int{}, c.Obj...), append([]int{}, c.Target...), c.TIface, c.Anon}
+	}
+	// is the anonymous class needed? if not, this is the finding of the named family
+	if c.Anon {
+		d := cp(c)
+		d.Anon = false
+		if w, g, _ := evalLike(st, d); fmt.Sprint(w, g) == target && likeVerdict(w, g) != "" {
+			c = d
+		}
 	}
 	for changed := true; changed; {
 		changed = false
@@ -226,7 +241,7 @@ func reduceLike(st *stats, c likeCase) likeCase {
 			used = append(used, m)
 		}
 	}
-	d := likeCase{TIface: c.TIface}
+	d := likeCase{TIface: c.TIface, Anon: c.Anon}
 	for range c.Target {
 		d.Base, d.Obj, d.Target = append(d.Base, -1), append(d.Obj, -1), append(d.Target, -1)
 	}
@@ -264,13 +279,17 @@ func likeWorker(w *pool.W, arg json.RawMessage) {
 		res := st.run(likeScript(base, obj, targets, pfx))
 		out, _ := parseOut(res.Out)
 		for ti, t := range targets {
-			for _, isI := range []bool{false, true} {
+			for q := 0; q < 4; q++ { // named obj x {class, interface} target, then the anonymous obj
+				isI, anon := q%2 == 1, q >= 2
 				st.cells++
 				tag := fmt.Sprintf("TC%d", ti)
 				if isI {
 					tag = fmt.Sprintf("TI%d", ti)
 				}
-				c := likeCase{pad(append([]int{}, base...)), pad(append([]int{}, obj...)), pad(append([]int{}, t...)), isI}
+				if anon {
+					tag = "A" + tag
+				}
+				c := likeCase{pad(append([]int{}, base...)), pad(append([]int{}, obj...)), pad(append([]int{}, t...)), isI, anon}
 				v, ok := out[tag]
 				got := norm(v, ok)
 				want := likeWant(c)
@@ -279,7 +298,7 @@ func likeWorker(w *pool.W, arg json.RawMessage) {
 					continue
 				}
 				// cheap pre-dedup: which tables carry the deciding method
-				sig := fmt.Sprintf("%v|%s|%v", want, got, isI)
+				sig := fmt.Sprintf("%v|%s|%v|%v", want, got, isI, anon)
 				for m, ta := range c.Target {
 					if ta >= 0 {
 						sig += fmt.Sprintf("|%v%v", c.Base[m] >= 0, c.Obj[m] >= 0)
@@ -305,7 +324,11 @@ func likeWorker(w *pool.W, arg json.RawMessage) {
 				if r.TIface {
 					tk = "interface"
 				}
-				key := fmt.Sprintf("like: base%s obj%s target-%s%s want=%v got=%s", fmtSig(r.Base), fmtSig(r.Obj), tk, fmtSig(r.Target), map[bool]string{true: "y", false: "n"}[rw], rg)
+				ok2 := "obj"
+				if r.Anon {
+					ok2 = "obj(anonymous)"
+				}
+				key := fmt.Sprintf("like: base%s %s%s target-%s%s want=%v got=%s", fmtSig(r.Base), ok2, fmtSig(r.Obj), tk, fmtSig(r.Target), map[bool]string{true: "y", false: "n"}[rw], rg)
 				if seen[key] {
 					continue
 				}
@@ -337,6 +360,7 @@ func likeShards(c *ev.Check, shards *[]pool.Shard) {
 	c.Set("like_methods", m)
 	c.Set("like_object_tables", n)
 	c.Set("like_targets", len(tuples(m, []int{-1, 0, 1, 2}))*2)
+	c.Set("like_object_kinds", "class Obj extends Base; anonymous class extends Base (same method table)")
 }
 
 // ---- nominal pairs: the object's class extends / implements the target and redeclares methods ----
